@@ -9,7 +9,7 @@ import dbutil
 
 PROPS = ('GambitV.Props.C11', 'GambitV.C11')
 # the JSON side: the encoder with the exporters' conversion rules writes the documented JSON, which carries what the statement names
-PROPS_EXTRA = [('GambitV.Props.C11Json', 'GambitV.Json'), ('GambitV.Props.C11JsonSpec', 'GambitV.Json'), ('GambitV.Props.C11JsonArchive', 'GambitV.Json')]
+PROPS_EXTRA = [('GambitV.Props.C11Json', 'GambitV.Json'), ('GambitV.Props.C11JsonSpec', 'GambitV.Json'), ('GambitV.Props.C11JsonArchive', 'GambitV.Json'), ('GambitV.Props.C11JsonFull', 'GambitV.Json')]
 TIE = [('GambitV.Tie.PyCsvColumns', 'GambitV.Tie.Py'), ('GambitV.Tie.PyGetattr', 'GambitV.Tie.Py'), ('GambitV.Tie.PyJson', 'GambitV.Tie.Py'), ('GambitV.Tie.PyJsonProps', 'GambitV.Tie.Py'), ('GambitV.Tie.PyArchiveReader', 'GambitV.Tie.Py'), ('GambitV.Tie.PyExporterChoice', 'GambitV.Tie.Py'), ('GambitV.Tie.PyResultClasses', 'GambitV.Tie.Py'), ('GambitV.Tie.PyCsvDialect', 'GambitV.Tie.Py')]
 RULE = ('result sets from real queries (default and strict) on scratch databases whose taxon names / genome descriptions / query labels contain commas, '
         'quotes, LF, CRLF, non-ASCII text; with no-prediction items, unreportable predicted taxa, failed strict results with warnings, inputs without a source '
